@@ -1,9 +1,126 @@
-//! C16: not built yet.
+//! C16: call-site checkers CWE676 / CWE782 / CWE426 / CWE332 report exactly the specified call sites.
+//! One case = (random program with a random extern table, one checker, random configuration) ->
+//! the warnings of the real `check_cwe`.  The expected warning bag is computed by TLC from
+//! spec/Checkers.tla.
+use crate::irenc;
 use crate::out::Out;
-use serde_json::Value;
+use crate::rng::Rng;
+use crate::walkgen::*;
+use crate::walkrun::{run_checker, warning, Needs};
+use cwe_checker_lib::intermediate_representation::*;
+use serde_json::{json, Value};
 
-pub fn gen(_out: &mut Out, _sub: &str) {}
+/// 20-name vocabulary; contains every name a configuration may mention (and "system"/"ioctl",
+/// which CWE426/CWE782 hard-code).
+pub const VOCAB: [&str; 20] = [
+    "system", "ioctl", "srand", "rand", "setuid", "setgid", "setresuid", "seteuid", "strcpy", "gets", "sprintf", "memcpy",
+    "alloca", "scanf", "strlen", "srandom", "random", "arc4random", "puts", "atoi",
+];
 
-pub fn replay(_run: &[Value], _sub: &str) -> Vec<Value> {
-    Vec::new()
+/// Trivial block contents; extern calls pick their target with the given per-name weights
+/// (default weight 2) so that the symbols a checker watches occur together often enough.
+pub struct PlainHooks(pub &'static [(&'static str, u64)]);
+impl Hooks for PlainHooks {
+    fn pick_extern(&mut self, rng: &mut Rng, _ctx: &BlkCtx, externs: &[ExternSymbol]) -> usize {
+        let w: Vec<u64> = externs.iter().map(|e| self.0.iter().find(|(n, _)| *n == e.name).map(|x| x.1).unwrap_or(2)).collect();
+        let mut x = rng.below(w.iter().sum());
+        for (i, wi) in w.iter().enumerate() {
+            if x < *wi {
+                return i;
+            }
+            x -= wi;
+        }
+        0
+    }
+    fn defs(&mut self, rng: &mut Rng, _ctx: &BlkCtx) -> Vec<Def> {
+        let n = rng.below(3);
+        (0..n)
+            .map(|_| Def::Assign { var: reg(pick_str(rng, &["RAX", "RBX", "RCX", "RDI"])), value: if rng.chance(1, 2) { econst(rng.range(0, 9)) } else { evar(pick_str(rng, &["RAX", "RSI", "RDI"])) } })
+            .collect()
+    }
+    fn cond(&mut self, rng: &mut Rng, _ctx: &BlkCtx) -> Expression {
+        ebin(BinOpType::IntEqual, evar(pick_str(rng, &["RAX", "RBX"])), econst(0))
+    }
+}
+
+/// random subset of the vocabulary as extern table
+pub fn extern_table(rng: &mut Rng, vocab: &[&str], p_num: u64, p_den: u64) -> Vec<ExternSymbol> {
+    let mut v = Vec::new();
+    for name in vocab {
+        if rng.chance(p_num, p_den) {
+            let np = rng.below(3) as usize;
+            let params = ["RDI", "RSI", "RDX"][..np].iter().map(|r| reg_arg(r)).collect();
+            v.push(mk_extern(name, params, vec![reg_arg("RAX")], false, None));
+        }
+    }
+    v
+}
+
+fn random_names(rng: &mut Rng, vocab: &[&str], max: u64, dups: bool) -> Vec<String> {
+    let n = rng.below(max + 1);
+    let mut v: Vec<String> = Vec::new();
+    for _ in 0..n {
+        let s = rng.pick(vocab).to_string();
+        if dups || !v.contains(&s) {
+            v.push(s);
+        }
+    }
+    v
+}
+
+pub fn knobs_calls() -> Knobs {
+    Knobs { subs: (1, 3), blocks: (1, 5), w_ext_call: 60, w_int_call: 6, w_branch: 12, w_cbranch: 10, w_return: 8, ..Knobs::default() }
+}
+
+/// Execute one recorded case on the real code.
+pub fn exec(checker: &str, project: &Project, config: &Value) -> Value {
+    let r = run_checker(project, checker, config, Needs::Nothing);
+    let (warnings, panic) = match r {
+        Ok(w) => (w.iter().map(warning).collect::<Vec<_>>(), String::new()),
+        Err(p) => (vec![], p),
+    };
+    json!({"ev": "c16", "checker": checker, "config": config, "warnings": warnings, "panic": panic})
+}
+
+pub fn gen(out: &mut Out, _sub: &str) {
+    let mut rng = Rng::new(out.seed ^ 0xC16);
+    let n = out.size(400, 15_000);
+    for _ in 0..n {
+        let mut r = rng.fork();
+        let dens = *r.pick(&[1u64, 2, 3]);
+        let externs = extern_table(&mut r, &VOCAB, dens, 4);
+        let program = gen_program(&mut r, &knobs_calls(), &externs, &mut PlainHooks(&[("system", 12), ("ioctl", 6), ("setuid", 6), ("setgid", 5), ("strcpy", 4)]));
+        let project = mk_project(program, vec![cconv_std()]);
+        let pj = irenc::project(&project);
+        let ncalls = project.program.term.subs.values().flat_map(|s| s.term.blocks.iter()).flat_map(|b| b.term.jmps.iter())
+            .filter(|j| matches!(j.term, Jmp::Call { .. })).count();
+        // CWE676: random symbol list (duplicates allowed, names absent from the binary, empty list)
+        let c676 = json!({"symbols": random_names(&mut r, &VOCAB, 8, true), "pairs": []});
+        // CWE782: no configuration
+        let c782 = json!({"symbols": [], "pairs": []});
+        // CWE426: privilege-changing symbols
+        let c426 = json!({"symbols": random_names(&mut r, &VOCAB[..10], 4, true), "pairs": []});
+        // CWE332: (initializer, generator) pairs without duplicate pairs
+        let mut pairs: Vec<Vec<String>> = Vec::new();
+        for _ in 0..r.below(4) {
+            let a = r.pick(&VOCAB[..8]).to_string();
+            let b = r.pick(&VOCAB[..8]).to_string();
+            if a != b && !pairs.iter().any(|p| (p[0] == a && p[1] == b) || (p[0] == b && p[1] == a)) {
+                pairs.push(vec![a, b]);
+            }
+        }
+        let c332 = json!({"symbols": [], "pairs": pairs});
+        let mut evs: Vec<Value> = vec![json!({"ev": "reset", "project": pj})];
+        evs.extend([("CWE676", c676), ("CWE782", c782), ("CWE426", c426), ("CWE332", c332)].iter().map(|(checker, cfg)| exec(checker, &project, cfg)));
+        let nontrivial = ncalls > 1 && evs[1..].iter().any(|ev| ev["warnings"].as_array().map(|w| !w.is_empty()).unwrap_or(false));
+        out.emit(evs, nontrivial);
+    }
+}
+
+/// A case is `[reset{project}, one event per checker]`; re-executes every checker event on the real code.
+pub fn replay(run: &[Value], _sub: &str) -> Vec<Value> {
+    let project = dec::project(&run[0]["project"]);
+    let mut evs = vec![json!({"ev": "reset", "project": irenc::project(&project)})];
+    evs.extend(run[1..].iter().map(|e| exec(e["checker"].as_str().unwrap(), &project, &e["config"])));
+    evs
 }
